@@ -20,23 +20,23 @@ open Relic Relic.Transport Relic.CompressHttp
     refused; the middleware answers every request in exactly one of three ways: 415 without running the
     handler (unknown coding), 400 without running the handler (the reader's constructor fails: a gzip
     stream without a valid member header), or it runs the handler on the decoded body. -/
-theorem negotiation_total (C : Codecs) (next : Handler) (pre : Option Nat) (r : Req) (a v : Str) :
+theorem negotiation_total (fx : Bool) (C : Codecs) (next : Handler) (pre : Option Nat) (r : Req) (a v : Str) :
     (selectEncoding a = if snappy ∈ tokens a then snappy else if gzip ∈ tokens a then gzip else []) ∧
     (codingOf v = none ↔ v ≠ [] ∧ v ≠ identity ∧ v ≠ gzip ∧ v ≠ snappy) ∧
     (codingOf [] = some .identity ∧ codingOf identity = some .identity ∧ codingOf gzip = some .gzip ∧
       codingOf snappy = some .snappy) ∧
-    ((requestCoding r = none ∧ middleware C next pre r = httpError 415 msg415) ∨
+    ((requestCoding r = none ∧ middlewareG fx C next pre r = httpError 415 msg415) ∨
      (∃ k, requestCoding r = some k ∧ (C.of k).opens r.body.1 = false ∧
-        middleware C next pre r = httpError 400 msg400) ∨
+        middlewareG fx C next pre r = httpError 400 msg400) ∨
      (∃ k, requestCoding r = some k ∧ (C.of k).opens r.body.1 = true ∧
-        (middleware C next pre r).ran = some (readAll (C.of k) r.body))) := by
+        (middlewareG fx C next pre r).ran = some (readAll (C.of k) r.body))) := by
   refine ⟨encoding_choice a, codingOf_none_iff v, ⟨codingOf_nil, codingOf_identity, codingOf_gzip, codingOf_snappy⟩, ?_⟩
   cases hk : requestCoding r with
-  | none => exact Or.inl ⟨rfl, middleware_refuse C next pre r hk⟩
+  | none => exact Or.inl ⟨rfl, middleware_refuse fx C next pre r hk⟩
   | some k =>
     cases ho : (C.of k).opens r.body.1 with
-    | false => exact Or.inr (Or.inl ⟨k, rfl, ho, middleware_badopen C next pre r k hk ho⟩)
-    | true => exact Or.inr (Or.inr ⟨k, rfl, ho, middleware_ran C next pre r k hk ho⟩)
+    | false => exact Or.inr (Or.inl ⟨k, rfl, ho, middleware_badopen fx C next pre r k hk ho⟩)
+    | true => exact Or.inr (Or.inr ⟨k, rfl, ho, middleware_ran fx C next pre r k hk ho⟩)
 
 -- mixed case, q-values, `*`, several values, white space: what is and is not recognised
 example : codingOf "GZIP".toList = none ∧ codingOf "gzip, identity".toList = none ∧ codingOf "*".toList = none := by decide
@@ -46,20 +46,20 @@ example : selectEncoding "*;q=1, GZIP, gzip;q=0".toList = gzip := by decide
 /-- **default_negotiation.**  Every answer of the middleware — including its own 415 and 400 — advertises
     `x-snappy-framed, gzip`; a client that takes its encodings from there (`getDirectory`) therefore uploads
     under x-snappy-framed, and asks for it in return. -/
-theorem default_negotiation (C : Codecs) (next : Handler) (pre : Option Nat) (r : Req) :
-    (middleware C next pre r).ae = acceptedEncodings ∧ selectEncoding acceptedEncodings = snappy ∧
+theorem default_negotiation (fx : Bool) (C : Codecs) (next : Handler) (pre : Option Nat) (r : Req) :
+    (middlewareG fx C next pre r).ae = acceptedEncodings ∧ selectEncoding acceptedEncodings = snappy ∧
     (∀ sched e, (clientRequest C acceptedEncodings sched e).ce = [snappy] ∧
       responseEncoding (clientRequest C acceptedEncodings sched e) = snappy) := by
   refine ⟨?_, by decide, ?_⟩
   · cases hk : requestCoding r with
-    | none => rw [middleware_refuse C next pre r hk]; rfl
+    | none => rw [middleware_refuse fx C next pre r hk]; rfl
     | some k =>
       cases ho : (C.of k).opens r.body.1 with
-      | false => rw [middleware_badopen C next pre r k hk ho]; rfl
+      | false => rw [middleware_badopen fx C next pre r k hk ho]; rfl
       | true =>
         by_cases he : responseEncoding r = []
-        · rw [middleware_plain C next pre r k hk ho he]
-        · rw [middleware_compressed C next pre r k hk ho he]
+        · rw [middleware_plain fx C next pre r k hk ho he]
+        · rw [middleware_compressed fx C next pre r k hk ho he]
           unfold respOf; split <;> rfl
   · intro sched e
     have h : selectEncoding acceptedEncodings = snappy := by decide
@@ -74,18 +74,18 @@ theorem default_negotiation (C : Codecs) (next : Handler) (pre : Option Nat) (r 
     is not invoked, nothing is compressed — and the answer does not depend on the body at all: its bytes
     are never interpreted.  On the client side an answer with an unrecognised `Content-Encoding` makes
     `doRequest` return an error without touching the body. -/
-theorem unknown_encoding_refused (C : Codecs) (next : Handler) (pre : Option Nat) (r : Req)
+theorem unknown_encoding_refused (fx : Bool) (C : Codecs) (next : Handler) (pre : Option Nat) (r : Req)
     (h : codingOf (headerGet r.ce) = none) :
-    (middleware C next pre r).status = 415 ∧ (middleware C next pre r).ran = none ∧
-    (middleware C next pre r).ce = none ∧ (middleware C next pre r).body = msg415 ∧
-    (∀ b, middleware C next pre { r with body := b } = middleware C next pre r) ∧
+    (middlewareG fx C next pre r).status = 415 ∧ (middlewareG fx C next pre r).ran = none ∧
+    (middlewareG fx C next pre r).ce = none ∧ (middlewareG fx C next pre r).body = msg415 ∧
+    (∀ b, middlewareG fx C next pre { r with body := b } = middlewareG fx C next pre r) ∧
     (∀ (explicit chunked : Bool) (v : Str) s ae cl w ran e, codingOf v = none →
         clientRead C explicit chunked ⟨s, some v, ae, cl, w, ran⟩ e = .error) := by
   have hr : requestCoding r = none := h
-  rw [middleware_refuse C next pre r hr]
+  rw [middleware_refuse fx C next pre r hr]
   refine ⟨rfl, rfl, rfl, rfl, ?_, ?_⟩
   · intro b
-    exact middleware_refuse C next pre { r with body := b } hr
+    exact middleware_refuse fx C next pre { r with body := b } hr
   · intro explicit chunked v s ae cl w ran e hv
     have hg : v ≠ gzip := by
       intro hg; rw [hg, codingOf_gzip] at hv; cases hv
@@ -97,23 +97,23 @@ example : (middleware toyCodecs (fun _ => [.write [1]]) none ⟨["br".toList], [
     `Write`, `Flush`), a `Content-Encoding` on the answer is the value `selectEncoding` picked from the
     request's first `Accept-Encoding` line: it is gzip or x-snappy-framed and it is one of the tokens the
     client listed. -/
-theorem response_encoding_only_if_accepted (C : Codecs) (next : Handler) (pre : Option Nat) (r : Req) (v : Str)
-    (h : (middleware C next pre r).ce = some v) :
+theorem response_encoding_only_if_accepted (fx : Bool) (C : Codecs) (next : Handler) (pre : Option Nat) (r : Req) (v : Str)
+    (h : (middlewareG fx C next pre r).ce = some v) :
     v = responseEncoding r ∧ v ∈ tokens (headerGet r.ae) ∧ (v = gzip ∨ v = snappy) := by
   have key : v = responseEncoding r ∧ responseEncoding r ≠ [] := by
     cases hk : requestCoding r with
-    | none => rw [middleware_refuse C next pre r hk] at h; cases h
+    | none => rw [middleware_refuse fx C next pre r hk] at h; cases h
     | some k =>
       cases ho : (C.of k).opens r.body.1 with
-      | false => rw [middleware_badopen C next pre r k hk ho] at h; cases h
+      | false => rw [middleware_badopen fx C next pre r k hk ho] at h; cases h
       | true =>
         by_cases he : responseEncoding r = []
-        · rw [middleware_plain C next pre r k hk ho he] at h; cases h
-        · rw [middleware_compressed C next pre r k hk ho he] at h
-          have inv := RCInv.fold (e := responseEncoding r) (all := next (readAll (C.of k) r.body))
+        · rw [middleware_plain fx C next pre r k hk ho he] at h; cases h
+        · rw [middleware_compressed fx C next pre r k hk ho he] at h
+          have inv := RCInv.fold (e := responseEncoding r) (all := next (readAll (C.of k) r.body)) fx
             (next (readAll (C.of k) r.body)) (fun _ h => h) (rc0 (responseEncoding r)) (RCInv.init _ _)
-          generalize (next (readAll (C.of k) r.body)).foldl RC.step (rc0 (responseEncoding r)) = c at h inv
-          unfold respOf RC.finish RW.writeHeader at h
+          generalize (next (readAll (C.of k) r.body)).foldl (RC.step fx) (rc0 (responseEncoding r)) = c at h inv
+          rw [respOf_finish] at h
           cases hs : c.rw.sent with
           | some x =>
             obtain ⟨s, hd⟩ := x
@@ -144,23 +144,23 @@ theorem q0_still_selected :
     content: a length present when the middleware is entered survives only on an answer without
     `Content-Encoding` produced by the handler itself; with a coding (and on the 415/400 answers) it is gone
     and net/http frames the body itself. -/
-theorem content_length_consistent (C : Codecs) (next : Handler) (pre : Option Nat) (r : Req) :
-    (middleware C next pre r).cl = none ∨
-      ((middleware C next pre r).cl = pre ∧ (middleware C next pre r).ce = none ∧ responseEncoding r = []) := by
+theorem content_length_consistent (fx : Bool) (C : Codecs) (next : Handler) (pre : Option Nat) (r : Req) :
+    (middlewareG fx C next pre r).cl = none ∨
+      ((middlewareG fx C next pre r).cl = pre ∧ (middlewareG fx C next pre r).ce = none ∧ responseEncoding r = []) := by
   cases hk : requestCoding r with
-  | none => rw [middleware_refuse C next pre r hk]; exact Or.inl rfl
+  | none => rw [middleware_refuse fx C next pre r hk]; exact Or.inl rfl
   | some k =>
     cases ho : (C.of k).opens r.body.1 with
-    | false => rw [middleware_badopen C next pre r k hk ho]; exact Or.inl rfl
+    | false => rw [middleware_badopen fx C next pre r k hk ho]; exact Or.inl rfl
     | true =>
       by_cases he : responseEncoding r = []
-      · rw [middleware_plain C next pre r k hk ho he]; exact Or.inr ⟨rfl, rfl, he⟩
-      · rw [middleware_compressed C next pre r k hk ho he]
+      · rw [middleware_plain fx C next pre r k hk ho he]; exact Or.inr ⟨rfl, rfl, he⟩
+      · rw [middleware_compressed fx C next pre r k hk ho he]
         left
-        have inv := RCInv.fold (e := responseEncoding r) (all := next (readAll (C.of k) r.body))
+        have inv := RCInv.fold (e := responseEncoding r) (all := next (readAll (C.of k) r.body)) fx
           (next (readAll (C.of k) r.body)) (fun _ h => h) (rc0 (responseEncoding r)) (RCInv.init _ _)
-        generalize (next (readAll (C.of k) r.body)).foldl RC.step (rc0 (responseEncoding r)) = c at inv
-        unfold respOf RC.finish RW.writeHeader
+        generalize (next (readAll (C.of k) r.body)).foldl (RC.step fx) (rc0 (responseEncoding r)) = c at inv
+        rw [respOf_finish]
         cases hs : c.rw.sent with
         | some x =>
           obtain ⟨s, hd⟩ := x
@@ -175,21 +175,21 @@ example : (middleware toyCodecs (fun _ => [.write [1, 2]]) (some 2) ⟨[], [], (
 
 /-- **error_responses_uncompressed.**  Whatever the handler does, an answer with a status of 300 or
     more has no `Content-Encoding` (the client's `httperror.FromResponse` reads such bodies as they are). -/
-theorem error_responses_uncompressed (C : Codecs) (next : Handler) (pre : Option Nat) (r : Req)
-    (h : 300 ≤ (middleware C next pre r).status) : (middleware C next pre r).ce = none := by
+theorem error_responses_uncompressed (fx : Bool) (C : Codecs) (next : Handler) (pre : Option Nat) (r : Req)
+    (h : 300 ≤ (middlewareG fx C next pre r).status) : (middlewareG fx C next pre r).ce = none := by
   cases hk : requestCoding r with
-  | none => rw [middleware_refuse C next pre r hk]; rfl
+  | none => rw [middleware_refuse fx C next pre r hk]; rfl
   | some k =>
     cases ho : (C.of k).opens r.body.1 with
-    | false => rw [middleware_badopen C next pre r k hk ho]; rfl
+    | false => rw [middleware_badopen fx C next pre r k hk ho]; rfl
     | true =>
       by_cases he : responseEncoding r = []
-      · rw [middleware_plain C next pre r k hk ho he]
-      · rw [middleware_compressed C next pre r k hk ho he] at h ⊢
-        have inv := RCInv.fold (e := responseEncoding r) (all := next (readAll (C.of k) r.body))
+      · rw [middleware_plain fx C next pre r k hk ho he]
+      · rw [middleware_compressed fx C next pre r k hk ho he] at h ⊢
+        have inv := RCInv.fold (e := responseEncoding r) (all := next (readAll (C.of k) r.body)) fx
           (next (readAll (C.of k) r.body)) (fun _ h => h) (rc0 (responseEncoding r)) (RCInv.init _ _)
-        generalize (next (readAll (C.of k) r.body)).foldl RC.step (rc0 (responseEncoding r)) = c at h inv
-        unfold respOf RC.finish RW.writeHeader at h ⊢
+        generalize (next (readAll (C.of k) r.body)).foldl (RC.step fx) (rc0 (responseEncoding r)) = c at h inv
+        rw [respOf_finish] at h ⊢
         cases hs : c.rw.sent with
         | some x =>
           obtain ⟨s, hd⟩ := x
@@ -202,19 +202,19 @@ theorem error_responses_uncompressed (C : Codecs) (next : Handler) (pre : Option
 /-- **status_only_from_handler.**  Apart from its own 415 and 400 the middleware invents no status: the
     status of the answer is 200 or one the handler passed to `WriteHeader`.  In particular it never
     answers 406 — the status on which `doRequest` falls back to an uncompressed upload. -/
-theorem status_only_from_handler (C : Codecs) (next : Handler) (pre : Option Nat) (r : Req) :
-    (middleware C next pre r).status = 415 ∨ (middleware C next pre r).status = 400 ∨
-    (middleware C next pre r).status = 200 ∨
-    ∃ rd, HOp.header (middleware C next pre r).status ∈ next rd := by
+theorem status_only_from_handler (fx : Bool) (C : Codecs) (next : Handler) (pre : Option Nat) (r : Req) :
+    (middlewareG fx C next pre r).status = 415 ∨ (middlewareG fx C next pre r).status = 400 ∨
+    (middlewareG fx C next pre r).status = 200 ∨
+    ∃ rd, HOp.header (middlewareG fx C next pre r).status ∈ next rd := by
   cases hk : requestCoding r with
-  | none => rw [middleware_refuse C next pre r hk]; exact Or.inl rfl
+  | none => rw [middleware_refuse fx C next pre r hk]; exact Or.inl rfl
   | some k =>
     cases ho : (C.of k).opens r.body.1 with
-    | false => rw [middleware_badopen C next pre r k hk ho]; exact Or.inr (Or.inl rfl)
+    | false => rw [middleware_badopen fx C next pre r k hk ho]; exact Or.inr (Or.inl rfl)
     | true =>
       right; right
       by_cases he : responseEncoding r = []
-      · rw [middleware_plain C next pre r k hk ho he]
+      · rw [middleware_plain fx C next pre r k hk ho he]
         simp only []
         cases hops : next (readAll (C.of k) r.body) with
         | nil => exact Or.inl rfl
@@ -223,11 +223,11 @@ theorem status_only_from_handler (C : Codecs) (next : Handler) (pre : Option Nat
           | header s => exact Or.inr ⟨readAll (C.of k) r.body, by rw [hops]; simp [statusOfOps]⟩
           | write d => exact Or.inl rfl
           | flush => exact Or.inl rfl
-      · rw [middleware_compressed C next pre r k hk ho he]
-        have inv := RCInv.fold (e := responseEncoding r) (all := next (readAll (C.of k) r.body))
+      · rw [middleware_compressed fx C next pre r k hk ho he]
+        have inv := RCInv.fold (e := responseEncoding r) (all := next (readAll (C.of k) r.body)) fx
           (next (readAll (C.of k) r.body)) (fun _ h => h) (rc0 (responseEncoding r)) (RCInv.init _ _)
-        generalize hc : (next (readAll (C.of k) r.body)).foldl RC.step (rc0 (responseEncoding r)) = c at inv
-        unfold respOf RC.finish RW.writeHeader
+        generalize hc : (next (readAll (C.of k) r.body)).foldl (RC.step fx) (rc0 (responseEncoding r)) = c at inv
+        rw [respOf_finish]
         cases hs : c.rw.sent with
         | some x =>
           obtain ⟨s, hd⟩ := x
@@ -238,12 +238,36 @@ theorem status_only_from_handler (C : Codecs) (next : Handler) (pre : Option Nat
         | none =>
           simp [hs]
 
-/-- the other half of the mismatch: a server that cannot decode the chosen coding says 415, and
-    `doRequest` neither retries uncompressed nor tries the next server (finding F-chttp-415) -/
-theorem fallback_not_taken_on_415 :
-    doRequest [1, 2, 3] snappy [0, 1] 0 [.status 415]
+/-- **fallback_on_415** (after the repair of F-chttp-415).  A server that cannot decode the chosen coding
+    says 415 (the middleware's own status, `status_only_from_handler`); `doRequest` now treats it like 406:
+    for every file, every non-empty encodings string, every server list and whatever follows in the script,
+    the pass ends in a restart, and the whole request continues from the first server without
+    Accept-Encoding and with an unencoded body (`failover_after_406_uncompressed` applies as it is). -/
+theorem fallback_on_415 (file : Bytes) (encs : Str) (b : Nat) (rest : List Nat) (more : List Outcome)
+    (c : Nat) (hc : c = 406 ∨ c = 415) (he : encs ≠ []) :
+    (pass file encs (b :: rest) (.status c :: more)).2.1 = .restart ∧
+    ∃ f, doRequest file encs (b :: rest) 0 (.status c :: more)
+        = .ok ([⟨b, encs, selectEncoding encs, file⟩] ++ (pass file [] (b :: rest) more).1, f) ∧
+      ∀ a ∈ (pass file [] (b :: rest) more).1, a.accept = [] ∧ a.enc = [] ∧ a.offered = file := by
+  have hp : pass file encs (b :: rest) (.status c :: more)
+      = ([⟨b, encs, selectEncoding encs, file⟩], .restart, more) := by
+    have h3 : ¬ c < 300 := by omega
+    simp [pass, roundTrip_status, h3, hc, he, getReader]
+  refine ⟨by rw [hp], ?_⟩
+  obtain ⟨f, h1, h2⟩ := failover_after_406_uncompressed file encs (b :: rest) (.status c :: more) (by rw [hp])
+  rw [hp] at h1 h2
+  exact ⟨f, h1, h2⟩
+
+-- the signing completes against a server that lacks the coding
+example : doRequest [1, 2, 3] snappy [0, 1] 0 [.status 415]
+    = .ok ([⟨0, snappy, snappy, [1, 2, 3]⟩, ⟨0, [], [], [1, 2, 3]⟩], .response 200 0) := by decide
+
+/-- **fallback_not_taken_on_415_orig** (finding F-chttp-415, the code before the repair): on 415 `doRequest`
+    neither resent uncompressed nor tried the next server; on 406 it did. -/
+theorem fallback_not_taken_on_415_orig :
+    doRequestOrig [1, 2, 3] snappy [0, 1] 0 [.status 415]
       = .ok ([⟨0, snappy, snappy, [1, 2, 3]⟩], .httpError 415) ∧
-    doRequest [1, 2, 3] snappy [0, 1] 0 [.status 406]
+    doRequestOrig [1, 2, 3] snappy [0, 1] 0 [.status 406]
       = .ok ([⟨0, snappy, snappy, [1, 2, 3]⟩, ⟨0, [], [], [1, 2, 3]⟩], .response 200 0) := by decide
 
 /-! ## round trips -/
@@ -252,13 +276,13 @@ theorem fallback_not_taken_on_415 :
     given, every file and every way `io.Copy` cuts it into writes: the handler behind the middleware
     reads exactly the bytes the client's `GetReader` handed out — under whichever of the three codings
     `CompressRequest` chose.  (And for each coding on its own.) -/
-theorem roundtrip_request (C : Codecs) (next : Handler) (pre : Option Nat) (accept : Str) (sched : List WOp) :
-    (middleware C next pre (clientRequest C accept sched .eof)).ran = some (.complete (plainOf sched)) ∧
+theorem roundtrip_request (fx : Bool) (C : Codecs) (next : Handler) (pre : Option Nat) (accept : Str) (sched : List WOp) :
+    (middlewareG fx C next pre (clientRequest C accept sched .eof)).ran = some (.complete (plainOf sched)) ∧
     (∀ k, readAll (C.of k) ((C.of k).enc sched, .eof) = .complete (plainOf sched)) := by
   constructor
   · have key : ∀ (e : Str) (k : Coding), selectEncoding accept = e → codingOf e = some k →
         (e = [] ∨ httpTrim e = e) →
-        (middleware C next pre (clientRequest C accept sched .eof)).ran = some (.complete (plainOf sched)) := by
+        (middlewareG fx C next pre (clientRequest C accept sched .eof)).ran = some (.complete (plainOf sched)) := by
       intro e k he hk ht
       have hreq : requestCoding (clientRequest C accept sched .eof) = some k := by
         unfold requestCoding clientRequest headerGet
@@ -274,7 +298,7 @@ theorem roundtrip_request (C : Codecs) (next : Handler) (pre : Option Nat) (acce
       have hdec := (C.of k).roundtrip sched
       have ho : (C.of k).opens (clientRequest C accept sched .eof).body.1 = true := by
         rw [hbody]; exact (C.of k).opens_of_dec _ _ hdec
-      rw [middleware_ran C next pre _ k hreq ho, hbody, readAll_eof _ _ _ hdec]
+      rw [middleware_ran fx C next pre _ k hreq ho, hbody, readAll_eof _ _ _ hdec]
     rcases selectEncoding_cases accept with h | h | h
     · exact key [] .identity h codingOf_nil (Or.inl rfl)
     · exact key gzip .gzip h codingOf_gzip (Or.inr (by decide))
@@ -284,32 +308,33 @@ theorem roundtrip_request (C : Codecs) (next : Handler) (pre : Option Nat) (acce
 
 example : (middleware toyCodecs (fun _ => []) none
       (clientRequest toyCodecs acceptedEncodings [.write [1, 2], .flush, .write [3]] .eof)).ran = some (.complete [1, 2, 3]) :=
-  (roundtrip_request toyCodecs _ none acceptedEncodings [.write [1, 2], .flush, .write [3]]).1
+  (roundtrip_request true toyCodecs _ none acceptedEncodings [.write [1, 2], .flush, .write [3]]).1
 
-/-- the full statement: whatever the handler does, the caller of `doRequest` reads the handler's
+/-- the full statement about the middleware with (`fx = true`) or without (`false`) the repair of
+    F-chttp-flush / F-chttp-empty: whatever the handler does, the caller of `doRequest` reads the handler's
     status and exactly the bytes the handler wrote -/
-def roundtrip_response_full : Prop :=
+def roundtrip_response_full (fx : Bool) : Prop :=
   ∀ (C : Codecs) (next : Handler) (pre : Option Nat) (r : Req) (k : Coding) (explicit chunked : Bool),
     requestCoding r = some k → (C.of k).opens r.body.1 = true →
-    clientRead C explicit chunked (middleware C next pre r) .eof =
+    clientRead C explicit chunked (middlewareG fx C next pre r) .eof =
       .body (statusOfOps (next (readAll (C.of k) r.body))) (.complete (plainOfOps (next (readAll (C.of k) r.body))))
 
-/-- **roundtrip_response_partial.**  For every pair of codecs, every request the middleware lets
-    through, every response coding it negotiates and every handler whose first operation is not `Flush()`
-    and which, if it announces a status below 300 explicitly, also writes at least one (possibly empty)
-    chunk or uses a codec that accepts an empty stream: the caller of `doRequest` gets the handler's status
-    and reads exactly what the handler wrote — with or without the transport's own gzip layer.
-    Missing for the full statement: exactly the two excluded handler shapes (below: both fail). -/
-theorem roundtrip_response_partial (C : Codecs) (next : Handler) (pre : Option Nat) (r : Req) (k : Coding)
+/-- **roundtrip_response_partial** (holds for the code before and after the repair).  For every pair of
+    codecs, every request the middleware lets through, every response coding it negotiates and every handler
+    whose first operation is not `Flush()` and which, if it announces a status below 300 explicitly, also
+    writes at least one (possibly empty) chunk or uses a codec that accepts an empty stream: the caller of
+    `doRequest` gets the handler's status and reads exactly what the handler wrote — with or without the
+    transport's own gzip layer. -/
+theorem roundtrip_response_partial (fx : Bool) (C : Codecs) (next : Handler) (pre : Option Nat) (r : Req) (k : Coding)
     (explicit chunked : Bool) (hk : requestCoding r = some k) (ho : (C.of k).opens r.body.1 = true)
     (h1 : (next (readAll (C.of k) r.body)).head? ≠ some .flush)
     (h2 : hasWrite (next (readAll (C.of k) r.body)) = true ∨ 300 ≤ statusOfOps (next (readAll (C.of k) r.body)) ∨
-          next (readAll (C.of k) r.body) = [] ∨ (C.ofStr (responseEncoding r)).dec [] = some []) :
-    clientRead C explicit chunked (middleware C next pre r) .eof =
+          next (readAll (C.of k) r.body) = [] ∨ (C.ofStr (responseEncoding r)).dec [] = some [] ∨ fx = true) :
+    clientRead C explicit chunked (middlewareG fx C next pre r) .eof =
       .body (statusOfOps (next (readAll (C.of k) r.body))) (.complete (plainOfOps (next (readAll (C.of k) r.body)))) := by
   by_cases he : responseEncoding r = []
-  · rw [middleware_plain C next pre r k hk ho he, clientRead_plain]
-  · rw [middleware_compressed C next pre r k hk ho he]
+  · rw [middleware_plain fx C next pre r k hk ho he, clientRead_plain]
+  · rw [middleware_compressed fx C next pre r k hk ho he]
     have hgs : responseEncoding r = gzip ∨ responseEncoding r = snappy := by
       rcases responseEncoding_cases r with h | h | h
       · exact absurd h he
@@ -329,9 +354,9 @@ theorem roundtrip_response_partial (C : Codecs) (next : Handler) (pre : Option N
       | flush => simp at h1
       | header s =>
         by_cases hs : 300 ≤ s
-        · rw [RC.run_header_err C e s rest hs]
+        · rw [RC.run_header_err fx C e s rest hs]
           simp [respOf, clientRead_plain, statusOfOps, plainOfOps]
-        · rw [RC.run_header_ok C e s rest (by omega) hne]
+        · rw [RC.run_header_ok fx C e s rest (by omega) hne]
           simp only [respOf, statusOfOps, plainOfOps]
           cases hw : hasWrite rest with
           | true =>
@@ -339,54 +364,97 @@ theorem roundtrip_response_partial (C : Codecs) (next : Handler) (pre : Option N
             exact clientRead_encoded C explicit chunked e hgs s _ _ _ _ _
               (by rw [(C.ofStr e).roundtrip, plainOf_wopsFrom])
           | false =>
-            have hd : (C.ofStr e).dec [] = some [] := by
-              rcases h2 with h | h | h | h
-              · simp [hasWrite, hw] at h
-              · simp [statusOfOps] at h; omega
-              · cases h
-              · exact h
-            simp only [Bool.false_eq_true, if_false]
             rw [plainOfOps_of_not_hasWrite rest hw]
-            exact clientRead_encoded C explicit chunked e hgs s _ _ _ _ _ hd
+            cases fx with
+            | true =>
+              simp only [Bool.false_eq_true, if_false, if_true]
+              exact clientRead_encoded C explicit chunked e hgs s _ _ _ _ _
+                (by rw [(C.ofStr e).roundtrip, plainOf_append, plainOf_wopsFrom,
+                      plainOfOps_of_not_hasWrite rest hw]; simp [plainOf])
+            | false =>
+              have hd : (C.ofStr e).dec [] = some [] := by
+                rcases h2 with h | h | h | h | h
+                · simp [hasWrite, hw] at h
+                · simp [statusOfOps] at h; omega
+                · cases h
+                · exact h
+                · cases h
+              simp only [Bool.false_eq_true, if_false]
+              exact clientRead_encoded C explicit chunked e hgs s _ _ _ _ _ hd
       | write d =>
         rw [RC.run_write]
         simp only [respOf, statusOfOps, plainOfOps]
         exact clientRead_encoded C explicit chunked e hgs 200 _ _ _ _ _
           (by rw [(C.ofStr e).roundtrip]; simp [plainOf, plainOf_wopsFrom])
 
+/-- **roundtrip_response** (FULL strength, for the repaired middleware).  For every pair of codecs, every
+    request the middleware lets through, every response coding it negotiates and EVERY handler — any sequence
+    of `WriteHeader`, `Write` and `Flush`, including `Flush` first and a 2xx status without a body: the caller
+    of `doRequest` gets the status a plain `ResponseWriter` would have sent and reads exactly the bytes the
+    handler wrote, with or without the transport's own gzip layer.  No exception remains. -/
+theorem roundtrip_response : roundtrip_response_full true := by
+  intro C next pre r k explicit chunked hk ho
+  by_cases h1 : (next (readAll (C.of k) r.body)).head? = some .flush
+  · -- a first Flush now acts like WriteHeader(200)
+    by_cases he : responseEncoding r = []
+    · rw [middleware_plain true C next pre r k hk ho he, clientRead_plain]
+    · obtain ⟨rest, hops⟩ : ∃ rest, next (readAll (C.of k) r.body) = .flush :: rest := by
+        cases hn : next (readAll (C.of k) r.body) with
+        | nil => rw [hn] at h1; simp at h1
+        | cons o rest => rw [hn] at h1; simp at h1; exact ⟨rest, by rw [h1]⟩
+      have hne : responseEncoding r ≠ [] ∧ responseEncoding r ≠ identity := by
+        refine ⟨he, ?_⟩
+        rcases responseEncoding_cases r with h | h | h
+        · exact absurd h he
+        · rw [h]; exact Ne.symm identity_ne_gzip
+        · rw [h]; exact Ne.symm identity_ne_snappy
+      -- the same request answered by the handler that says WriteHeader(200) instead of the first Flush
+      have key := roundtrip_response_partial true C (fun _ => .header 200 :: rest) pre r k explicit chunked hk ho
+        (by simp) (Or.inr (Or.inr (Or.inr (Or.inr rfl))))
+      rw [middleware_compressed true C _ pre r k hk ho he] at key
+      rw [middleware_compressed true C next pre r k hk ho he, hops, RC.run_flush_fixed C _ rest hne]
+      simpa [statusOfOps, plainOfOps] using key
+  · exact roundtrip_response_partial true C next pre r k explicit chunked hk ho h1 (Or.inr (Or.inr (Or.inr (Or.inr rfl))))
+
 -- a handler that writes, flushes and writes again (lib/compresshttp/compress_test.go), both codecs
 example : clientRead toyCodecs true true
       (middleware toyCodecs (fun _ => [.write [1, 2], .flush, .write [3]]) none ⟨[], [acceptedEncodings], ([], .eof)⟩) .eof
     = .body 200 (.complete [1, 2, 3]) :=
-  roundtrip_response_partial toyCodecs _ none _ .identity true true (by decide) (by decide) (by decide) (Or.inl (by decide))
+  roundtrip_response toyCodecs _ none _ .identity true true (by decide) (by decide)
+-- the two handler shapes that failed before the repair
+example : clientRead toyCodecs true false (middleware toyCodecs (fun _ => [.flush, .write [1]]) none ⟨[], [gzip], ([], .eof)⟩) .eof
+    = .body 200 (.complete [1]) := roundtrip_response toyCodecs _ none _ .identity true false (by decide) (by decide)
+example : clientRead toyCodecs true false (middleware toyCodecs (fun _ => [.header 201]) none ⟨[], [gzip], ([], .eof)⟩) .eof
+    = .body 201 (.complete []) := roundtrip_response toyCodecs _ none _ .identity true false (by decide) (by decide)
 
-/-- **flush_first_loses_content_encoding** (finding F-chttp-flush).  For every pair of codecs and every
-    negotiated coding: a handler that calls `Flush()` before its first `Write` gets its header sent
-    without `Content-Encoding` (net/http writes it during that flush; `responseCompressor` sets the field
-    afterwards), and the body is compressed all the same. -/
-theorem flush_first_loses_content_encoding (C : Codecs) (next : Handler) (pre : Option Nat) (r : Req) (k : Coding)
+/-- **flush_first_loses_content_encoding_orig** (finding F-chttp-flush, the code before the repair).  For
+    every pair of codecs and every negotiated coding: a handler that calls `Flush()` before its first `Write`
+    got its header sent without `Content-Encoding` (net/http wrote it during that flush; `responseCompressor`
+    set the field afterwards), and the body was compressed all the same. -/
+theorem flush_first_loses_content_encoding_orig (C : Codecs) (next : Handler) (pre : Option Nat) (r : Req) (k : Coding)
     (d : Bytes) (rest : List HOp) (hk : requestCoding r = some k) (ho : (C.of k).opens r.body.1 = true)
     (he : responseEncoding r ≠ [])
     (hn : next (readAll (C.of k) r.body) = .flush :: .write d :: rest) :
-    (middleware C next pre r).status = 200 ∧ (middleware C next pre r).ce = none ∧
-    (middleware C next pre r).body = (C.ofStr (responseEncoding r)).enc (.write d :: wopsFrom true rest) := by
-  rw [middleware_compressed C next pre r k hk ho he, hn, RC.run_flush_write]
+    (middlewareOrig C next pre r).status = 200 ∧ (middlewareOrig C next pre r).ce = none ∧
+    (middlewareOrig C next pre r).body = (C.ofStr (responseEncoding r)).enc (.write d :: wopsFrom true rest) := by
+  unfold middlewareOrig
+  rw [middleware_compressed false C next pre r k hk ho he, hn, RC.run_flush_write]
   simp [respOf]
 
-/-- **roundtrip_response_full is false**: (1) `Flush(); Write([1])` with gzip negotiated: the client reads
-    the compressed bytes as the body; (2) `WriteHeader(200)` and no body with gzip negotiated:
-    `Content-Encoding: gzip` on an empty body, `gzip.NewReader` fails, `doRequest` returns an error
-    (finding F-chttp-empty). -/
-theorem roundtrip_response_full_false : ¬ roundtrip_response_full := by
+/-- **roundtrip_response_orig_false**: the full statement was false before the repair: (1) `Flush(); Write([1])`
+    with gzip negotiated: the client read the compressed bytes as the body; (2) `WriteHeader(200)` and no body
+    with gzip negotiated: `Content-Encoding: gzip` on an empty body, `gzip.NewReader` fails, `doRequest`
+    returned an error (finding F-chttp-empty). -/
+theorem roundtrip_response_orig_false : ¬ roundtrip_response_full false := by
   intro h
   have := h toyCodecs (fun _ => [.flush, .write [1]]) none ⟨[], [gzip], ([], .eof)⟩ .identity true true (by decide) (by decide)
   revert this
   decide
 
-theorem empty_2xx_gzip_unreadable :
-    clientRead toyCodecs true false (middleware toyCodecs (fun _ => [.header 200]) none ⟨[], [gzip], ([], .eof)⟩) .eof = .error ∧
-    clientRead toyCodecs false false (middleware toyCodecs (fun _ => [.header 200]) none ⟨[], [gzip], ([], .eof)⟩) .eof = .error ∧
-    clientRead toyCodecs true false (middleware toyCodecs (fun _ => [.header 200]) none ⟨[], [snappy], ([], .eof)⟩) .eof
+theorem empty_2xx_gzip_unreadable_orig :
+    clientRead toyCodecs true false (middlewareOrig toyCodecs (fun _ => [.header 200]) none ⟨[], [gzip], ([], .eof)⟩) .eof = .error ∧
+    clientRead toyCodecs false false (middlewareOrig toyCodecs (fun _ => [.header 200]) none ⟨[], [gzip], ([], .eof)⟩) .eof = .error ∧
+    clientRead toyCodecs true false (middlewareOrig toyCodecs (fun _ => [.header 200]) none ⟨[], [snappy], ([], .eof)⟩) .eof
       = .body 200 (.complete []) := by decide
 
 /-! ## truncation -/
@@ -399,9 +467,9 @@ theorem empty_2xx_gzip_unreadable :
       `doRequest`: it is an error at once or a read error;
     * with a codec whose streams are self-delimiting (gzip), even a cleanly ended proper prefix of an
       encoded stream fails to read. -/
-theorem truncated_never_accepted (C : Codecs) (next : Handler) (pre : Option Nat) :
+theorem truncated_never_accepted (fx : Bool) (C : Codecs) (next : Handler) (pre : Option Nat) :
     (∀ (r : Req) (t : Bool), r.body.2 = .error t →
-        (middleware C next pre r).ran = none ∨ (middleware C next pre r).ran = some .failed) ∧
+        (middlewareG fx C next pre r).ran = none ∨ (middlewareG fx C next pre r).ran = some .failed) ∧
     (∀ (explicit chunked : Bool) (resp : Resp) (t : Bool),
         clientRead C explicit chunked resp (.error t) = .error ∨
         clientRead C explicit chunked resp (.error t) = .body resp.status .failed) ∧
@@ -409,13 +477,13 @@ theorem truncated_never_accepted (C : Codecs) (next : Handler) (pre : Option Nat
   refine ⟨?_, ?_, ?_⟩
   · intro r t ht
     cases hk : requestCoding r with
-    | none => left; rw [middleware_refuse C next pre r hk]; rfl
+    | none => left; rw [middleware_refuse fx C next pre r hk]; rfl
     | some k =>
       cases ho : (C.of k).opens r.body.1 with
-      | false => left; rw [middleware_badopen C next pre r k hk ho]; rfl
+      | false => left; rw [middleware_badopen fx C next pre r k hk ho]; rfl
       | true =>
         right
-        rw [middleware_ran C next pre r k hk ho]
+        rw [middleware_ran fx C next pre r k hk ho]
         have : r.body = (r.body.1, .error t) := by rw [← ht]
         rw [this, readAll_error]
   · intro explicit chunked resp t
@@ -463,15 +531,16 @@ theorem snappy_frame_prefix_reads (fs : List Bytes) (j : Nat) (B : Nat) (hB : 0 
 /-! ## composition with the client's fail-over loop -/
 
 /-- **transport_preserves_digest.**  For every pair of codecs, every file, advertised encodings, server
-    list, retry setting and script of per-attempt outcomes with which `doRequest` terminates, and for
-    every attempt it made (first pass with the advertised encodings, second pass after a 406 without,
-    any server, any retry), every way the file is cut into writes and every handler behind the middleware:
+    list, retry setting and script of per-attempt outcomes with which `doRequest` terminates — histories with
+    transport errors, 5xx, 406 AND 415 answers (`fallback_on_415`) alike — and for every attempt it made
+    (first pass with the advertised encodings, second pass after a 406/415 without, any server, any retry),
+    every way the file is cut into writes and EVERY handler behind the (repaired) middleware:
     * if the upload of that attempt arrives with a clean end, the handler reads the whole transform
       stream, byte for byte;
     * if it does not arrive with a clean end (source fault, `fault_never_accepted`; broken connection),
       whatever bytes arrived, no handler reads a complete body;
     * the caller of `doRequest` reads the status and exactly the bytes the handler produced from the whole
-      file (for handlers within `roundtrip_response_partial`). -/
+      file (`roundtrip_response`, no restriction on the handler any more). -/
 theorem transport_preserves_digest (C : Codecs) (file : Bytes) (encs : Str) (bases : List Nat) (retries : Int)
     (script : List Outcome) (tr : List Attempt) (f : Final)
     (h : doRequest file encs bases retries script = .ok (tr, f)) :
@@ -481,34 +550,34 @@ theorem transport_preserves_digest (C : Codecs) (file : Bytes) (encs : Str) (bas
       (∀ (w : Bytes) (t : Bool) (b : Bytes),
           (middleware C next pre { clientRequest C a.accept sched .eof with body := (w, .error t) }).ran ≠
             some (.complete b)) ∧
-      ((next (.complete file)).head? ≠ some .flush → hasWrite (next (.complete file)) = true → ∀ chunked,
+      (∀ chunked,
         clientRead C (decide (a.accept ≠ [])) chunked (middleware C next pre (clientRequest C a.accept sched .eof)) .eof
           = .body (statusOfOps (next (.complete file))) (.complete (plainOfOps (next (.complete file))))) := by
   intro a ha sched hs next pre
+  unfold middleware
   obtain ⟨hall, _, _⟩ := failover_same_body file encs bases retries script tr f h
   obtain ⟨hoff, henc, _⟩ := hall a ha
-  have hrun := (roundtrip_request C next pre a.accept sched).1
+  have hrun := (roundtrip_request true C next pre a.accept sched).1
   rw [hs, hoff] at hrun
   refine ⟨?_, hrun, ?_, ?_⟩
   · simp [clientRequest, henc]
   · intro w t b
-    have := (truncated_never_accepted C next pre).1
+    have := (truncated_never_accepted true C next pre).1
       { clientRequest C a.accept sched .eof with body := (w, .error t) } t rfl
     rcases this with h1 | h1 <;> rw [h1] <;> simp
-  · intro h1 h2 chunked
+  · intro chunked
     -- the request coding and the opened reader, as in `roundtrip_request`
     have hread : ∃ k, requestCoding (clientRequest C a.accept sched .eof) = some k ∧
         (C.of k).opens (clientRequest C a.accept sched .eof).body.1 = true ∧
         readAll (C.of k) (clientRequest C a.accept sched .eof).body = .complete file := by
-      rcases (negotiation_total C next pre (clientRequest C a.accept sched .eof) [] []).2.2.2 with hh | hh | hh
+      rcases (negotiation_total true C next pre (clientRequest C a.accept sched .eof) [] []).2.2.2 with hh | hh | hh
       · rw [hh.2] at hrun; cases hrun
       · obtain ⟨k, _, _, hh⟩ := hh; rw [hh] at hrun; cases hrun
       · obtain ⟨k, hk, ho, hr⟩ := hh
         rw [hr] at hrun
         exact ⟨k, hk, ho, by injection hrun⟩
     obtain ⟨k, hk, ho, hr⟩ := hread
-    have := roundtrip_response_partial C next pre (clientRequest C a.accept sched .eof) k (decide (a.accept ≠ [])) chunked
-      hk ho (by rw [hr]; exact h1) (by rw [hr]; exact Or.inl h2)
+    have := roundtrip_response C next pre (clientRequest C a.accept sched .eof) k (decide (a.accept ≠ [])) chunked hk ho
     rw [hr] at this
     exact this
 
@@ -516,7 +585,7 @@ theorem transport_preserves_digest (C : Codecs) (file : Bytes) (encs : Str) (bas
     (digest, signature, patch: whatever the signer module computes from the bytes it reads), a server
     that answers `sign body` after reading the body to its clean end makes `doRequest` hand out
     `sign file` — the same bytes a standalone run computes from the same stream — for every attempt of
-    every fail-over history. -/
+    every fail-over history (406 and 415 restarts included). -/
 theorem remote_equals_standalone (C : Codecs) (sign : Bytes → Bytes) (file : Bytes) (encs : Str) (bases : List Nat)
     (retries : Int) (script : List Outcome) (tr : List Attempt) (f : Final)
     (h : doRequest file encs bases retries script = .ok (tr, f)) :
@@ -527,15 +596,14 @@ theorem remote_equals_standalone (C : Codecs) (sign : Bytes → Bytes) (file : B
         = .body 200 (.complete (sign file)) := by
   intro a ha sched hs chunked
   have := (transport_preserves_digest C file encs bases retries script tr f h a ha sched hs
-    (fun rd => match rd with | .complete b => [.write (sign b)] | .failed => [.header 400]) none).2.2.2
-    (by simp) (by simp [hasWrite]) chunked
+    (fun rd => match rd with | .complete b => [.write (sign b)] | .failed => [.header 400]) none).2.2.2 chunked
   simpa [statusOfOps, plainOfOps] using this
 
+-- a server that lacks the coding answers 415; the signing completes on the uncompressed second pass
 example : ∀ a ∈ [(⟨0, snappy, snappy, [1, 2, 3]⟩ : Attempt), ⟨0, [], [], [1, 2, 3]⟩], ∀ sched, plainOf sched = a.offered → ∀ chunked,
     clientRead toyCodecs (decide (a.accept ≠ [])) chunked
       (middleware toyCodecs (fun rd => match rd with | .complete b => [.write (b ++ b)] | .failed => [.header 400]) none
         (clientRequest toyCodecs a.accept sched .eof)) .eof = .body 200 (.complete [1, 2, 3, 1, 2, 3]) :=
-  remote_equals_standalone toyCodecs (fun b => b ++ b) [1, 2, 3] snappy [0, 1] 0 [.status 406] _ _
-    fallback_not_taken_on_415.2
+  remote_equals_standalone toyCodecs (fun b => b ++ b) [1, 2, 3] snappy [0, 1] 0 [.status 415] _ (.response 200 0) (by decide)
 
 end Relic.Props.C09
